@@ -36,7 +36,17 @@ fn draw_stream(ctx: &Ctx, kind: Kind, short: bool) -> Vec<u8> {
     let k = ctx.plan(3) as usize;
     let mut props: Vec<(Vec<u8>, Vec<u8>)> = vec![(b"Socket-Type".to_vec(), kind.peers()[0].as_bytes().to_vec())];
     for i in 0..k {
-        props.push((format!("X-Prop{i}").into_bytes(), body(ctx.plan(40) as usize, i)));
+        // mostly short values; one in six is long enough to push READY into the long (8-byte size)
+        // command form, where a cut can fall inside a large command body
+        let len = if ctx.plan(6) == 0 { 300 + ctx.plan(400) as usize } else { ctx.plan(40) as usize };
+        props.push((format!("X-Prop{i}").into_bytes(), body(len, i)));
+    }
+    if ctx.plan(4) == 0 {
+        let mut id = body(225 + ctx.plan(31) as usize, 9);
+        for b in id.iter_mut() {
+            *b |= 1;
+        }
+        props.push((b"Identity".to_vec(), id));
     }
     let pr: Vec<(&[u8], &[u8])> = props.iter().map(|(a, b)| (&a[..], &b[..])).collect();
     s.extend(rc::ready(&pr));
@@ -359,7 +369,7 @@ pub fn def() -> PropDef {
     PropDef {
         id: "C02",
         level: "exploration",
-        rule: "the same byte stream (greeting, READY with 0..2 extra properties, messages of 1..4 frames incl. empty and > 8 KiB frames, READY commands in between) is decoded by a real socket under many partitions into reads and compared with the reference decode of the concatenation; all_partitions_16: index = suffix (3) x 15-bit cut mask over the last 16 bytes, all 98304 enumerated in the thorough tier; cuts_enumerated: single cuts and cut pairs of short streams walked by the index; byte_at_a_time; random_partitions: geometric, +-1 around the 8 KiB read block, +-1 around item boundaries; receiving kinds PULL, DEALER, SUB, ROUTER, XPUB, REP, REQ; non-trivial = at least one cut; distinct = distinct (case, plan, schedule, transport)",
+        rule: "the same byte stream (greeting, READY with 0..2 extra properties of up to 700 bytes and, one case in four, an Identity of 225..255 bytes - i.e. also READY in the long command form -, messages of 1..4 frames incl. empty and > 8 KiB frames, READY commands in between) is decoded by a real socket under many partitions into reads and compared with the reference decode of the concatenation; all_partitions_16: index = suffix (3) x 15-bit cut mask over the last 16 bytes, all 98304 enumerated in the thorough tier; cuts_enumerated: single cuts and cut pairs of short streams walked by the index; byte_at_a_time; random_partitions: geometric, +-1 around the 8 KiB read block, +-1 around item boundaries; receiving kinds PULL, DEALER, SUB, ROUTER, XPUB, REP, REQ; non-trivial = at least one cut; distinct = distinct (case, plan, schedule, transport)",
         assumptions: &["exact strata: whole-chunk reads, no latency, next chunk released at the idle barrier, so the executed partition is exactly the planned one", "REQ reads only while a request is outstanding; its application keeps one outstanding"],
         strata: vec![
             Stratum { name: "all_partitions_16", quick: 12_000, thorough: 3 << 15, exhaustive: (false, true), run: all_partitions_16, what: "all 2^15 partitions of a 16-byte item suffix, three suffixes (thorough: complete)" },
